@@ -10,10 +10,12 @@ requests
   consts
   mode  cl T f                         → C: F S Cv | Py: F S Cv ZPE | fixed forms: S' Cv'
   mesh  cl pretend hascut cut nq nb ns bi[ns] w[nq] fr[nq·nb] nt T[nt]
-        → zpe(thr=0) zpe(thr=cut) then per T: pyF pyS pyS' pyCv pyCv' cF(zpe thr 0) cF(zpe thr cut) cS cCv   (kJ/mol, kJ/K/mol)
+        → zpe(thr=0) zpe(thr=cut) num_modes num_integrated_modes then per T: pyF pyS pyS' pyCv pyCv' cF(zpe thr 0) cF(zpe thr cut) cS cCv   (kJ/mol, kJ/K/mol)
   proj  cl hascut cut nq nb w[nq] fr[nq·nb] e2[nq·nb·nb] nt T[nt]
         → per T, per component j: F S S' Cv Cv'
   keeptemps nt T[nt]
+  cloop cl cut nt nq nb T[nt] freqs[nq·nb] weights[nq]     (the generated loop nest of phpy_get_thermal_properties,
+        → 3·nt values of thermal_props (eV units)           started from zeros, uninitialised objects = NaN)
 -/
 
 def fl? (c : Cur) : Option (Float × Cur) := do
@@ -89,7 +91,7 @@ def handle (line : String) : String :=
         let cut := cutoffEv thz (if hascut then some cutTHz else none)
         let z0 := zpe conv cl wf fe 0
         let zc := zpe conv cl wf fe cut
-        let mut out : Array Float := #[z0, zc]
+        let mut out : Array Float := #[z0, zc, numModes ns wf, numIntegrated wf fe cut]
         for t in ts do
           out := out ++ #[pyF EPy conv cl wf fe cut t,
             pyS modeS EPy conv cl wf fe cut t * 1000, pyS modeS' EPy conv cl wf fe cut t * 1000,
@@ -126,6 +128,20 @@ def handle (line : String) : String :=
             pyProj (fun f => modeCv EPy t f cl) (fun f => modeZero EPy t f cl) conv wf fe e2f cut t j * 1000,
             pyProj (fun f => modeCv' EPy t f cl) (fun f => modeZero EPy t f cl) conv wf fe e2f cut t j * 1000]
       pure (showFs out)
+    | "cloop" =>
+      let (cl, c) ← bool? c
+      let (cut, c) ← fl? c
+      let (nt, c) ← c.nat?
+      let (nq, c) ← c.nat?
+      let (nb, c) ← c.nat?
+      let (ts, c) ← fls? c nt
+      let (fr, c) ← fls? c (nq * nb)
+      let (w, c) ← fls? c nq
+      if !c.atEnd then none
+      let nan : Float := 0.0 / 0.0
+      let res := ThermalC.phpy_get_thermal_properties E (fun _ => 0.0) (fun k => ts.getD k nan)
+        (fun k => fr.getD k nan) (fun k => w.getD k nan) nt nq nb cut (clInt cl) (fun _ => nan) nan
+      pure (showFs (Array.ofFn (n := nt * 3) fun i => res i.1))
     | "keeptemps" =>
       let (nt, c) ← c.nat?
       let (ts, c) ← fls? c nt
